@@ -4,6 +4,7 @@ import (
 	"bytes"
 	"encoding/json"
 	"fmt"
+	"github.com/shutter-network/rolling-shutter/rolling-shutter/keyperimpl/shutterservice"
 	"math/big"
 	"sort"
 	"strings"
@@ -112,14 +113,23 @@ type c16World struct {
 }
 
 func c16TriggerEvent(n int, data bool, expiry uint64) *syncx.Event {
-	var min *big.Int
+	def := syncx.TriggerDefinition(syncx.TargetAddr, c16Sig, nil)
 	if data {
-		min = big.NewInt(100)
+		// topic 0 == Ping, first data word >= 100, and topic 3 == 0 as an integer: the
+		// generated logs have one topic, and a topic a log does not have reads as the
+		// empty value (0), so this predicate holds for all of them; it must not keep
+		// the log from being fetched either.
+		d := shutterservice.EventTriggerDefinition{Contract: syncx.TargetAddr, LogPredicates: []shutterservice.LogPredicate{
+			{LogValueRef: shutterservice.LogValueRef{Offset: 0}, ValuePredicate: shutterservice.ValuePredicate{Op: shutterservice.BytesEq, ByteArgs: [][]byte{c16Sig.Bytes()}}},
+			{LogValueRef: shutterservice.LogValueRef{Offset: 4}, ValuePredicate: shutterservice.ValuePredicate{Op: shutterservice.UintGte, IntArgs: []*big.Int{big.NewInt(100)}}},
+			{LogValueRef: shutterservice.LogValueRef{Offset: 3}, ValuePredicate: shutterservice.ValuePredicate{Op: shutterservice.UintEq, IntArgs: []*big.Int{big.NewInt(0)}}},
+		}}
+		def = d.MarshalBytes()
 	}
 	return &syncx.Event{
 		Kind: syncx.Multi, Name: fmt.Sprintf("trigger%d", n), Eon: 1,
 		Prefix: [32]byte{0xC0, byte(n)}, Sender: common.BytesToAddress([]byte{0x5e, byte(n)}),
-		Definition: syncx.TriggerDefinition(syncx.TargetAddr, c16Sig, min), DefinitionValid: true, Expiration: expiry,
+		Definition: def, DefinitionValid: true, Expiration: expiry,
 	}
 }
 
@@ -449,7 +459,7 @@ func c16() *report.Check {
 			"SyncStartBlockNumber = 0 and block 0 is empty, so the start-block question of C15 does not interfere",
 		},
 		Shards: func(thorough bool) int { return 16 },
-		Budget: minutes(1.4, 20),
+		Budget: minutes(3, 20),
 		Run:    runC16,
 		Replay: func(c *report.Ctx, raw json.RawMessage) string {
 			var rp c16Replay
